@@ -1083,6 +1083,9 @@ def _process_add_event_tick(
     # as a normal accepted event (which would cause duplicate processing).
     waiter_resolved_steps: set[str] = set()
     for step_name, step_config in state.config.steps.items():
+        if tick.step_name is not None and tick.step_name != step_name:
+            # An event addressed to a specific step is not for waiters of other steps.
+            continue
         wait_conditions = state.workers[step_name].collected_waiters
         for wait_condition in wait_conditions:
             is_match = type(tick.event) is wait_condition.waiting_for_event
